@@ -124,6 +124,7 @@ def case_strategy(draw, ctx):
             d0 = draw(st.integers(3, n - 8))
             d1 = draw(st.integers(d0 + 5, n - 3))
         dev.append([d0, d1])
+    dispersive = draw(st.integers(0, 2)) == 0  # a third of the scenes: the "hi" device material carries a Lorentz pole
     pmode = draw(st.sampled_from(["const", "const", "seed"]))
     param = {"mode": "const", "value": draw(st.sampled_from([0.0, 0.25, 0.6, 1.0]))} if pmode == "const" else \
         {"mode": "seed", "seed": draw(st.integers(0, 2 ** 31 - 1))}
@@ -162,7 +163,11 @@ def case_strategy(draw, ctx):
             iv.append(draw(thin_interval(n, d0, d1, rels[a]) if thin else allen_interval(n, d0, d1, rels[a])))
         o["iv"] = iv
         objs.append(o)
-    return {"shape": shape, "device": dev, "param": param, "objects": objs}
+    case = {"shape": shape, "device": dev, "param": param, "objects": objs}
+    if dispersive:
+        case["dispersive"] = True
+        case["param2"] = {"mode": "const", "value": draw(st.sampled_from([0.0, 0.5, 1.0]))}  # applied after `param`
+    return case
 
 
 STATE_FIELDS = {
@@ -193,8 +198,13 @@ def body(ctx, case):
     cdt = jnp.complex128 if ctx.f64 else jnp.complex64
     cfg = fdtdx.SimulationConfig(grid=fdtdx.UniformGrid(spacing=D), time=20e-15, backend="cpu", dtype=fdt)
     vol = fdtdx.SimulationVolume(partial_grid_shape=shape, name="volume")
+    hi_kw = {}
+    if case.get("dispersive"):
+        w_c = 2 * np.pi * 299792458.0 / (10 * D)  # carrier of the sources below
+        hi_kw["dispersion"] = fdtdx.DispersionModel(poles=(fdtdx.LorentzPole(resonance_frequency=2.5 * w_c,
+                                                                              damping=0.1 * w_c, delta_epsilon=3.0),))
     dev = fdtdx.Device(name="dev", materials={"lo": fdtdx.Material(permittivity=EPS_LO),
-                                              "hi": fdtdx.Material(permittivity=EPS_HI)},
+                                              "hi": fdtdx.Material(permittivity=EPS_HI, **hi_kw)},
                        param_transforms=[], partial_voxel_grid_shape=(1, 1, 1))
     objs, cons = [vol, dev], []
 
@@ -235,6 +245,11 @@ def body(ctx, case):
     params = dict(params)
     params["dev"] = jnp.asarray(p, dtype=fdt)
     arrays2, objects2, _ = fdtdx.apply_params(arrays, objects, params, key)
+    if case.get("param2"):  # a second parameter set applied on the previous result (dispersive scenes)
+        p = np.full(dshape, case["param2"]["value"])
+        params["dev"] = jnp.asarray(p, dtype=fdt)
+        arrays2, objects2, _ = fdtdx.apply_params(arrays2, objects2, params, key)
+        ctx.classify("dispersive-device")
 
     # the post-device material itself (continuous blend of the two permittivities inside the device box)
     eps = np.ones(shape)
@@ -262,9 +277,11 @@ def body(ctx, case):
         with warnings.catch_warnings():
             warnings.simplefilter("ignore")
             ref = got.apply(key=key, inv_permittivities=arrays2.inv_permittivities,
-                            inv_permeabilities=arrays2.inv_permeabilities)
+                            inv_permeabilities=arrays2.inv_permeabilities, dispersive_c1=arrays2.dispersive_c1,
+                            dispersive_c2=arrays2.dispersive_c2, dispersive_c3=arrays2.dispersive_c3,
+                            dispersive_c4=arrays2.dispersive_c4, electric_conductivity=arrays2.electric_conductivity)
         where = f"{o['name']} box {o['iv']} vs device {case['device']} (relations {rels})"
-        if o["type"].startswith("dipole"):
+        if o["type"].startswith("dipole") and not case.get("dispersive"):
             osl = tuple(slice(a, b) for a, b in o["iv"])
             a = got._inv_eps_local
             ctx.check(not isinstance(a, Null) and a is not None, f"{o['name']} was never set up: {where}")
